@@ -46,7 +46,7 @@ def cases(tier, seed):
     rng = random.Random(seed * 7919 + 15)
     out = []
     cfgs = [dict(p=1), dict(p=2), dict(p=1, q=1), dict(p=3), dict(p=2, r=1), dict(p=3, r=1), dict(p=4), dict(name='2DPGA'), dict(name='3DPGA'),
-            dict(p=2, start_index=0), dict(p=3, start_index=4), dict(p=2, start_index=3), dict(p=1, start_index=2), dict(p=3, start_index=6), dict(p=1, q=1, r=1, start_index=7)]
+            dict(p=2, start_index=0), dict(p=3, start_index=4), dict(p=2, start_index=3), dict(p=1, start_index=2), dict(p=3, start_index=6), dict(p=1, q=1, r=1, start_index=7), dict(p=3, start_index=12), dict(p=4, start_index=11)]
     for _ in range(6 if tier == 'quick' else 200):
         d = rng.choice((2, 3, 3, 4))
         pqr = rng.choice(pat.pqr_all(d))
